@@ -4,20 +4,10 @@ import os
 
 VERIF = os.path.dirname(os.path.dirname(os.path.abspath(__file__)))
 
-CLAIMED = {
-    "C01": {
-        "text": "Lean theorems over the reals (all mesh sizes, all placements): the model of ConvexPolyhedron's signed-"
-                "tetrahedron volume, curl-theorem centroid, 4-point quadrature inertia and parallel-axis shift equals the "
-                "sum of exact tetrahedron integrals for every tetrahedralisation whose boundary chain is the surface, and is "
-                "independent of simplex order/rotation. The model is tied to /repo by a per-run correspondence check "
-                "(same executable definitions at Float vs the implementation) and the implementation is compared with the "
-                "Lean spec evaluated exactly over Q.",
-        "design_ref": "DESIGN.md §7 C01, §3.2",
-        "note": "Trusted: Lean kernel + Mathlib; tetrahedron closed forms (Spec/Solid.lean); correspondence harness and its "
-                "1e-9*scale tolerance; Qhull as a parameter (hull.area contract checked per case); floating point outside the theorems.",
-        "technique": "Lean 4 proof (chain-cancellation + ring identities) + model/implementation correspondence + exact-Q spec oracle",
-    },
-}
+CLAIMED = {}
+for _fn in sorted(os.listdir(os.path.join(VERIF, "harness", "claims"))):
+    if _fn.endswith(".json"):
+        CLAIMED[_fn[:-5]] = json.load(open(os.path.join(VERIF, "harness", "claims", _fn)))
 
 PENDING_REASON = "check not built yet in this round (planned; see DESIGN.md §7); not claimed until its Lean model, theorems and correspondence exist"
 
